@@ -7,6 +7,7 @@ mod c11;
 mod c06;
 mod c03;
 mod c18;
+mod c20;
 
 use std::io::{BufWriter, Write};
 
@@ -29,6 +30,7 @@ fn main() {
                 "C06" => c06::gen(tier, seed, &mut out),
                 "C03" => c03::gen(tier, seed, &mut out),
                 "C18" => c18::gen(tier, seed, &mut out),
+                "C20" => c20::gen(tier, seed, &mut out),
                 _ => {
                     eprintln!("unknown property {}", prop);
                     std::process::exit(2);
@@ -85,6 +87,16 @@ fn replay_one(toks: &[&str]) -> String {
             r
         }
         "C18" | "C18L" => c18::observe(toks[0], &toks[1..]),
+        "C20" => {
+            if toks[1] == "K" {
+                let types = if toks[2] == "-" { "" } else { toks[2] };
+                c20::observe_path(types, &c20::parse_coords(toks[3]))
+            } else {
+                let v: Vec<f64> =
+                    toks[2..10].iter().map(|t| f64::from_bits(u64::from_str_radix(t, 16).unwrap())).collect();
+                c20::observe_transform(&v)
+            }
+        }
         other => format!("unknown-model {}", other),
     }
 }
